@@ -350,3 +350,45 @@ ASSUMPTIONS = ["split functions verified for dimension d in {1,2,3} (loop-free u
                "grid.get_mid_point is the unweighted midpoint (Grid.get_mid_point inlined from the real source)",
                "refine() verified for d in {1,2} under its three policies; the parent benefits / twin errors that drive the automatic and single-dimension policies are arbitrary reals (their computation is layer B)",
                "coarsen_grid (local combination), point assignment: layer B only"]
+
+
+# --------------------------------------------------------------------------- point assignment kernel: closed-box membership
+from pyvc.book import Loop  # noqa: E402
+
+I_, R_ = z3.IntSort(), z3.RealSort()
+
+
+class Contains(Contract):
+    """RefinementObjectExtendSplit.contains (any dimension): True exactly for the points of the closed box [start, end] (get_points_in_areas_recursive hands
+    every evaluation point to the FIRST child whose closed box contains it and removes it from the rest, so each point lands in exactly one leaf)"""
+    file, qualname = FILE, "RefinementObjectExtendSplit.contains"
+
+    def inputs(self, S):
+        dim = S.int("dim")
+        S.assume(dim >= 1)
+        o = Obj("RefinementObjectExtendSplit", dict(dim=dim, start=S.seq("start", dim, R_, kind="array"), end=S.seq("end", dim, R_, kind="array")))
+        return {"self": o, "point": S.seq("point", dim, R_, kind="tuple")}
+
+    @staticmethod
+    def inside(o, pt, hi):
+        k = z3.Int("ck")
+        return z3.ForAll([k], z3.Implies(z3.And(k >= 0, k < hi), z3.And(z3.Select(pt, k) >= z3.Select(o["start"].arr, k), z3.Select(pt, k) <= z3.Select(o["end"].arr, k))))
+
+    def inv(self, S, env, g):
+        old = S.ex.old
+        c = env["contained"]
+        c = c if not isinstance(c, bool) else z3.BoolVal(c)
+        return [("all-coordinates-so-far-inside", z3.And(c, self.inside(old["self"].fields, old["point"].arr, g["k"]))),
+                ("inputs-untouched", z3.And(env["point"].arr == old["point"].arr, env["self"].fields["start"].arr == old["self"].fields["start"].arr,
+                                            env["self"].fields["end"].arr == old["self"].fields["end"].arr))]
+
+    @property
+    def loops(self):
+        return {0: Loop(inv=lambda S, env, g: self.inv(S, env, g))}
+
+    def post(self, S, old, env, result):
+        r = result if not isinstance(result, bool) else z3.BoolVal(result)
+        return [Cl("true-exactly-for-the-points-of-the-closed-box", r == self.inside(old["self"].fields, old["point"].arr, old["self"].fields["dim"]), prop=True)]
+
+
+CONTRACTS += [Contains()]
